@@ -846,6 +846,36 @@ pub fn eval_c20(sc: &Scenario, h: &History, _signed: &Signeds, out: &mut Outcome
             }
         }
     }
+    // the collection builders' own figures (certificate deposits and refunds, total withdrawals) against the node's
+    // reading of the body that was built from them
+    for b in &h.built {
+        if let Ok(v) = TxView::parse(&tx_bytes_of(b)) {
+            let mut dep = BigInt::from(0);
+            let mut refund = BigInt::from(0);
+            let mut ok = true;
+            for c in v.certs().unwrap_or_default() {
+                match oracle::cert_facts(c, k) {
+                    Ok(f) => {
+                        dep += f.deposit;
+                        refund += f.refund;
+                    }
+                    Err(_) => ok = false,
+                }
+            }
+            if !ok {
+                continue;
+            }
+            let wsum: BigInt = v.withdrawals().unwrap_or_default().iter().map(|x| BigInt::from(x.1)).sum();
+            out.count("c20.collection_builder_figures_compared", 1);
+            for (name, got, want) in [("certificate deposits", b.sub_figures[0], &dep), ("certificate refunds", b.sub_figures[1], &refund), ("total withdrawals", b.sub_figures[2], &wsum)] {
+                match got {
+                    Some(g) if BigInt::from(g) != *want => out.violate("C20.collection_builders", "collection_builder_figure_differs", format!("op {}: the collection builder reports {} = {}, the body it was built from carries {}", b.op, name, g, want)),
+                    None if *want <= BigInt::from(u64::MAX) => out.violate("C20.collection_builders", "collection_builder_error_although_fits", format!("op {}: the collection builder fails to report {} although {} fits in 64 bits", b.op, name, want)),
+                    _ => {}
+                }
+            }
+        }
+    }
     for (op, txb, body, builder) in bodies {
         let v = match TxView::parse(&txb) {
             Ok(v) => v,
